@@ -115,6 +115,7 @@ type Run struct {
 	UQuality   map[string]uint32
 	Preamble   []string // oracle lines G, I...
 	Findings   []Finding
+	Logs       *LogTrack // the log database of the uninterrupted node (logcut.go)
 }
 
 func (r *Run) fail(class, summary string, found bool, cut int) {
@@ -135,6 +136,21 @@ func Build(w *World, scn *Scenario) (*Run, error) {
 	r.Views[u.Genesis.Header().ID()] = gv
 	r.Preamble = append(r.Preamble, fmt.Sprintf("G %x | %s", w.Cfg.L, gl))
 	r.FinSet[u.BFT.Finalized()] = true
+	r.Logs = &LogTrack{}
+	logNow := func() string {
+		snap, err := u.LogSnapshot()
+		if err != nil {
+			hx.Fatal("log db snapshot: %v", err)
+		}
+		dump, err := u.LogDump()
+		if err != nil {
+			hx.Fatal("log db dump: %v", err)
+		}
+		r.Logs.Snaps = append(r.Logs.Snaps, snap)
+		r.Logs.Dumps = append(r.Logs.Dumps, dump)
+		return dump
+	}
+	lastDump := logNow()
 	for _, idx := range scn.Deliver {
 		if idx < 0 || idx >= len(r.Blocks) || r.Blocks[idx] == nil {
 			continue
@@ -143,11 +159,18 @@ func Build(w *World, scn *Scenario) (*Run, error) {
 		id := b.Header().ID()
 		_, errBefore := u.Repo.GetBlockSummary(id)
 		d := &Delivery{Block: b, From: u.Eng.Len()}
+		finishLogs := r.trackLogs(u, lastDump)
 		cls, err := u.Import(b)
+		logPos, logProblems := finishLogs()
 		if err != nil {
 			return nil, fmt.Errorf("uninterrupted import of block %d: %w", idx, err)
 		}
 		d.To = u.Eng.Len()
+		r.Logs.Commit = append(r.Logs.Commit, logPos)
+		for _, p := range logProblems {
+			r.Logs.Problems = append(r.Logs.Problems, fmt.Sprintf("delivery %d (block #%d): %s", len(r.Deliveries), b.Header().Number(), p))
+		}
+		lastDump = logNow()
 		_, errAfter := u.Repo.GetBlockSummary(id)
 		d.Stored = errBefore != nil && errAfter == nil
 		if errBefore == nil {
